@@ -269,3 +269,14 @@ Proof.
   specialize (H A B). rewrite fifo_witness_forwards in H. cbn in H. lia.
 Qed.
 
+
+(** [no_overtake] is satisfiable by a run that queues and drains (so the partial theorem is not
+    vacuous): same bucket, request 2 arrives after the poll instead of before it. *)
+Example fifo_partial_example :
+  let ins := [EReq 0 0; EReq 1 0; EPoll 1000000000; EReq 2 1000000000; EPoll 2000000000] in
+  let acq := pol_acq Qops (CTb (Build_tbp Qops 1%Q 1%Q)) in
+  let tua := pol_tua Qops (CTb (Build_tbp Qops 1%Q 1%Q)) in
+  let e0 := ent_init _ (STb (Build_tbs Qops 1%Q None)) in
+  no_overtake _ acq tua 10 e0 ins /\
+  fwd_ids (snd (fst (ent_run _ acq tua 10 e0 ins))) = [0; 1; 2].
+Proof. vm_compute. repeat split; congruence. Qed.
